@@ -57,3 +57,72 @@ def ofTens [Zero α] (t : Tens α) : Mat α :=
 
 end Mat
 end Geo
+
+namespace Geo
+section
+variable {α : Type} [Add α] [Mul α] [Zero α] [One α] [Neg α]
+
+/-- `hat_matrix(x)` for 3 scalars: `result[i[k], j[k]] = x[k]`, `result[j[k], i[k]] = −x[k]` with the index
+    tables of the code (`i = [1,2,0]`, `j = [2,0,1]`) -/
+def hatMatrix3 (ti tj : List Nat) (x : Nat → α) : Mat α :=
+  Mat.ofFn 3 3 fun r c =>
+    match (List.range 3).find? (fun k => ti.getD k 0 = r ∧ tj.getD k 0 = c) with
+    | some k => x k
+    | none => match (List.range 3).find? (fun k => tj.getD k 0 = r ∧ ti.getD k 0 = c) with
+      | some k => -(x k)
+      | none => 0
+
+/-- pairs `(i,j)`, `i<j`, in the order of `np.triu_indices(n, 1)` -/
+def triuPairs (n : Nat) : List (Nat × Nat) :=
+  (List.range n).flatMap fun i => ((List.range n).filter (i < ·)).map fun j => (i, j)
+
+/-- `hat_matrix(x)` for n ≠ 3: the reversed `triu` order -/
+def hatMatrixN (n : Nat) (x : Nat → α) : Mat α :=
+  let ps := (triuPairs n).reverse
+  Mat.ofFn n n fun r c =>
+    match ps.findIdx? (fun p => p.1 = r ∧ p.2 = c) with
+    | some k => x k
+    | none => match ps.findIdx? (fun p => p.2 = r ∧ p.1 = c) with
+      | some k => -(x k)
+      | none => 0
+
+/-- exact `is_multiple(a, b)` along the whole vector: true iff one of them is zero or `a = c·b` with `c ≠ 0`
+    (decided through the vanishing of all 2×2 minors and equal zero patterns) -/
+def isMultiple [Sub α] [DecidableEq α] (a b : List α) : Bool :=
+  let az := a.all (· = 0)
+  let bz := b.all (· = 0)
+  let zerosEqual := (a.zip b).all fun p => decide (p.1 = 0) == decide (p.2 = 0)
+  let minors := (a.zip b).all fun p => (a.zip b).all fun q => p.1 * q.2 - q.1 * p.2 = 0
+  az || bz || (zerosEqual && minors)
+
+/-- coefficients (highest first) of `lead · Π (x − r)` -/
+def polyFromRoots [Sub α] (lead : α) (rs : List α) : List α :=
+  rs.foldl (fun (p : List α) r =>
+    -- multiply by (x − r)
+    let shifted := p ++ [0]
+    let scaled := (0 : α) :: p.map (r * ·)
+    (shifted.zip scaled).map fun q => q.1 - q.2) [lead]
+
+/-- Horner evaluation -/
+def polyEval (p : List α) (x : α) : α := p.foldl (fun acc c => acc * x + c) 0
+
+end
+
+/-- exact rank by fraction-free-free Gaussian elimination over a field -/
+def Mat.rank {α : Type} [Add α] [Mul α] [Sub α] [Div α] [Zero α] [DecidableEq α] (m : Mat α) : Nat :=
+  let cols := (m.headD []).length
+  let rec go (fuel : Nat) (rows : Mat α) (col : Nat) (r : Nat) : Nat :=
+    match fuel with
+    | 0 => r
+    | fuel + 1 =>
+      if col ≥ cols then r else
+      match rows.find? (fun row => row.getD col 0 ≠ 0) with
+      | none => go fuel rows (col + 1) r
+      | some piv =>
+        let rest := (rows.erase piv).map fun row =>
+          let f := row.getD col 0 / piv.getD col 0
+          (row.zip piv).map fun q => q.1 - f * q.2
+        go fuel rest (col + 1) (r + 1)
+  go (cols + 1) m 0 0
+
+end Geo
